@@ -472,6 +472,9 @@ class IndentAndNameChecker(BaseChecker):
                     )  # no suggested correction for this
 
     def process_line(self, line, line_number):
+        # measure the indentation the way LineRuleChecker is going to rewrite it (one tab -> SPACES_PER_INDENT blanks)
+        lead = len(line) - len(line.lstrip())
+        line = line[:lead].replace("\t", " " * SPACES_PER_INDENT) + line[lead:]
         stripped_line = line.strip()
         if len(stripped_line) == 0:
             self.force_next_indent = 0
